@@ -56,7 +56,7 @@ class Variant:
         out = src
         for old, new in self.edits:
             if self.every:
-                pattern = r"\b" + re.escape(old) + r"\b"
+                pattern = (r"\b" if re.match(r"\w", old) else "") + re.escape(old) + (r"\b" if re.search(r"\w$", old) else "")
                 if not re.search(pattern, out):
                     return None
                 out = re.sub(pattern, lambda _m, new=new: new, out)
@@ -356,7 +356,9 @@ VARIANTS += [
     Variant("twin-cli-rename-results", CLI, [("results", "outputs")], (), twin=True, every=True),
     Variant("twin-thl-rename-loss", REC, [("conserv_loss", "closs")], (), twin=True, every=True),
     Variant("twin-spfs-rename-assignment", SPFS, [("assignment", "placement")], (), twin=True, every=True),
-    Variant("twin-layout-rename-size", LAYOUT, [("size", "extent")], (), twin=True, every=True),
+    Variant("twin-layout-rename-size", LAYOUT, [("trunk_size", "trunk_extent"), ("subtree_span", "subtree_reach")], (), twin=True, every=True,
+            note="(the earlier form renamed every `size`, including the keyword of Rect.make_from: not a program that runs)"),
+    Variant("twin-layout-rename-size-key", LAYOUT, [('"size"', '"extent"')], (), twin=True, every=True),
     Variant("twin-dp-rename-info", DP, [("candidate", "cand")], (), twin=True, every=True),
     T("twin-uspfs-inline-tuple", USPFS,
       "                        subprobs[child_index][inh].left.update(*inh_candidates)",
@@ -594,6 +596,23 @@ VARIANTS += [
 ]
 # ---- fourth round: rules derived from the mutation sweep and the fourth batch of seeded changes
 VARIANTS += [
+    M("subtrees-right-offset-no-left-width", LAYOUT, "                state[\"right_pos\"] = Position(\n                    left_info[\"size\"].w + subtree_spacing,", "                state[\"right_pos\"] = Position(\n                    subtree_spacing,", "SUBTREE-BOX", "SIGMA-INVARIANCE"),
+    M("subtrees-left-offset-other-height", LAYOUT, "                    0,\n                    subtree_span - left_info[\"size\"].h,", "                    0,\n                    subtree_span - right_info[\"size\"].h,", "SUBTREE-BOX", "SIGMA-INVARIANCE"),
+    M("subtrees-span-min", LAYOUT, "                    max(left_info[\"size\"].h, right_info[\"size\"].h) + trunk_height", "                    min(left_info[\"size\"].h, right_info[\"size\"].h) + trunk_height", "SUBTREE-BOX", "SIGMA-INVARIANCE"),
+    M("subtrees-span-without-trunk", LAYOUT, "                    max(left_info[\"size\"].h, right_info[\"size\"].h) + trunk_height", "                    max(left_info[\"size\"].h, right_info[\"size\"].h)", "SUBTREE-BOX", "SIGMA-INVARIANCE"),
+    M("subtrees-size-without-right", LAYOUT, "                    left_info[\"size\"].w + subtree_spacing + right_info[\"size\"].w,", "                    left_info[\"size\"].w + subtree_spacing,", "SUBTREE-BOX", "SIGMA-INVARIANCE"),
+    Variant("subtrees-spacing-min-both", LAYOUT, [
+        ("                subtree_spacing = max(\n                    trunk_width - (left_trunk_dist + right_trunk_dist),", "                subtree_spacing = min(\n                    trunk_width - (left_trunk_dist + right_trunk_dist),"),
+        ("                subtree_spacing = max(\n                    trunk_height - (left_trunk_dist + right_trunk_dist),", "                subtree_spacing = min(\n                    trunk_height - (left_trunk_dist + right_trunk_dist),"),
+    ], ("SUBTREE-BOX",), note="both orientations changed alike: sigma-symmetric, only the lemma sees it"),
+    M("subtrees-offsets-swapped-at-placement", LAYOUT, "                position=this_rect.top_left() + this_layout[\"left_pos\"],", "                position=this_rect.top_left() + this_layout[\"right_pos\"],", "SUBTREE-BOX"),
+    M("subtrees-size-of-sibling", LAYOUT, "                position=this_rect.top_left() + this_layout[\"left_pos\"],\n                size=layout_state[left_species][\"size\"],", "                position=this_rect.top_left() + this_layout[\"left_pos\"],\n                size=layout_state[right_species][\"size\"],", "SUBTREE-BOX"),
+    Variant("twin-subtrees-spacing-arg-order", LAYOUT, [
+        ("                subtree_spacing = max(\n                    trunk_width - (left_trunk_dist + right_trunk_dist),\n                    params.min_subtree_spacing,\n                )",
+         "                subtree_spacing = max(\n                    params.min_subtree_spacing,\n                    trunk_width - (left_trunk_dist + right_trunk_dist),\n                )"),
+        ("                subtree_spacing = max(\n                    trunk_height - (left_trunk_dist + right_trunk_dist),\n                    params.min_subtree_spacing,\n                )",
+         "                subtree_spacing = max(\n                    params.min_subtree_spacing,\n                    trunk_height - (left_trunk_dist + right_trunk_dist),\n                )"),
+    ], (), twin=True),
     M("cli-arity-negated", CLI, "    if len(params) == 1:", "    if len(params) != 1:", "CLI-FLOW-TABLE"),
     M("cli-empty-results-kept", CLI, "    if not results:\n        return None\n", "", "CLI-FLOW-TABLE"),
     M("cli-results-test-inverted", CLI, "    if not results:", "    if results:", "CLI-FLOW-TABLE"),
